@@ -1333,9 +1333,13 @@ func c17Caps(r *core.Run) {
 						continue
 					}
 					if ifi, isIf := b.Instrs[len(b.Instrs)-1].(*ssa.If); isIf {
-						if op, x, _, neg, okC := core.Compare(ifi.Cond); okC && !neg && op == token.LEQ {
-							if add, isAdd := x.(*ssa.BinOp); isAdd && add.Op == token.ADD && (b == st.Block() || b.Dominates(st.Block())) {
-								acc = add.X
+						if _, x, y, _, okC := core.Compare(ifi.Cond); okC && (b == st.Block() || b.Dominates(st.Block())) {
+							for _, side := range []ssa.Value{x, y} {
+								if add, isAdd := side.(*ssa.BinOp); isAdd && add.Op == token.ADD {
+									if _, isLen := isBuiltinCall(add.Y, "len"); isLen {
+										acc = add.X
+									}
+								}
 							}
 						}
 					}
